@@ -3,7 +3,7 @@
  * - records every relevant libc call on a *tracked* descriptor (one text line per call) into the
  *   file named by VSHIM_LOG (opened O_APPEND|O_CLOEXEC on a high descriptor; survives fork);
  * - reports a lowered SO_SNDBUF (VSHIM_SNDBUF) so one machine visits many configurations;
- * - fails chosen transmission attempts of the calling thread with ENOBUFS (vshim_faults);
+ * - fails chosen transmission attempts of the calling thread with ENOBUFS / EINTR / EPIPE / ECONNRESET (vshim_faults);
  * - returns EINTR from epoll_wait/poll on request (vshim_eintr);
  * - kills the process before its k-th following tracked call (vshim_arm_kill);
  * - sleeps after chosen calls to widen race windows (vshim_delay_after_first).
@@ -128,8 +128,17 @@ void vshim_reset_calls(void) { call_ctr = 0; kill_at = -1; }
 void vshim_delay_after_first(long us) { delay_first_us = us; }
 long vshim_sndbuf(void) { return sndbuf_override; }
 
+/* pattern characters: '0' let the attempt through, '1' ENOBUFS, '2' EINTR, '3' EPIPE, '4' ECONNRESET; returns the errno or 0 */
 static int next_fault(void) {
-    if (fault_pos < fault_len) return fault_pat[fault_pos++] == '1';
+    if (fault_pos < fault_len) {
+        switch (fault_pat[fault_pos++]) {
+        case '1': return ENOBUFS;
+        case '2': return EINTR;
+        case '3': return EPIPE;
+        case '4': return ECONNRESET;
+        default: return 0;
+        }
+    }
     return 0;
 }
 
@@ -232,9 +241,10 @@ ssize_t sendmsg(int fd, const struct msghdr *m, int flags) {
     if (m->msg_iovlen > 0 && m->msg_iov[0].iov_len == 8) memcpy(&hdr, m->msg_iov[0].iov_base, 8);
     int first = -1;
     int nr = count_rights(m, &first);
-    if (next_fault()) {
-        logf_("sendmsg fd=%d bytes=%zu hdr=%llu rights=%d ctl=%zu res=-1 errno=%d injected=1", fd, tot, hdr, nr, (size_t)m->msg_controllen, ENOBUFS);
-        errno = ENOBUFS; return -1;
+    int inj = next_fault();
+    if (inj) {
+        logf_("sendmsg fd=%d bytes=%zu hdr=%llu rights=%d ctl=%zu res=-1 errno=%d injected=1", fd, tot, hdr, nr, (size_t)m->msg_controllen, inj);
+        errno = inj; return -1;
     }
     ssize_t r = r_sendmsg(fd, m, flags); int e = errno;
     logf_("sendmsg fd=%d bytes=%zu hdr=%llu rights=%d ctl=%zu res=%zd errno=%d", fd, tot, hdr, nr, (size_t)m->msg_controllen, r, r < 0 ? e : 0);
@@ -246,9 +256,10 @@ ssize_t send(int fd, const void *b, size_t n, int flags) {
     init_once(); RESOLVE(send);
     if (!is_tracked(fd)) return r_send(fd, b, n, flags);
     tick();
-    if (next_fault()) {
-        logf_("send fd=%d bytes=%zu res=-1 errno=%d injected=1", fd, n, ENOBUFS);
-        errno = ENOBUFS; return -1;
+    int inj = next_fault();
+    if (inj) {
+        logf_("send fd=%d bytes=%zu res=-1 errno=%d injected=1", fd, n, inj);
+        errno = inj; return -1;
     }
     ssize_t r = r_send(fd, b, n, flags); int e = errno;
     logf_("send fd=%d bytes=%zu res=%zd errno=%d", fd, n, r, r < 0 ? e : 0);
